@@ -358,9 +358,13 @@ fn stall_dialogue<S: Read + Write>(s: &mut S, greet: bool, offer_starttls: bool,
     }
 }
 
-fn serve_tstall_conn(mut s: TcpStream, wrapper: bool, at: Option<char>, ident: native_tls::Identity, done: Arc<AtomicBool>) {
+fn serve_tstall_conn(mut s: TcpStream, wrapper: bool, plain: bool, at: Option<char>, ident: native_tls::Identity, done: Arc<AtomicBool>) {
     s.set_nodelay(true).ok();
     s.set_read_timeout(Some(Duration::from_millis(50))).ok();
+    if plain {
+        stall_dialogue(&mut s, true, false, at, &done);
+        return;
+    }
     // before TLS: `s` (no reply to STARTTLS) and `h` (no handshake) stall here, every other position inside TLS
     if !wrapper {
         let clear_at = if at == Some('s') { at } else { None };
@@ -380,7 +384,7 @@ fn serve_tstall_conn(mut s: TcpStream, wrapper: bool, at: Option<char>, ident: n
     stall_dialogue(&mut t, wrapper, false, at, &done);
 }
 
-/// `tstall <client s|a> <T ms> <mode w|r> <at h|g|e|s|m|z>`: two sends through a transport with timeout T and TLS (implicit
+/// `tstall <client s|a|c> <T ms> <mode w|r|p> <at h|g|e|s|m|z>`: two sends through a transport with timeout T and TLS (implicit
 /// or required STARTTLS) against a peer whose first connection goes silent at `at`; later connections are served to the
 /// end. Reports `result@is_timeout@ms` per send.
 pub fn tstall(args: &[&str]) -> Option<Vec<String>> {
@@ -391,12 +395,20 @@ pub fn tstall(args: &[&str]) -> Option<Vec<String>> {
     let ident = identity("g")?;
     // trust the test CA, accept the host name (the peer is reached by address)
     let params = tls_params("1001")?;
-    let wrapper = match mode {
-        "w" => true,
-        "r" => false,
+    let (wrapper, plain) = match mode {
+        "w" => (true, false),
+        "r" => (false, false),
+        // no TLS at all (the same positions on a clear-text connection; used with client `c`)
+        "p" => (false, true),
         _ => return None,
     };
-    let tlscfg = if wrapper { Tls::Wrapper(params) } else { Tls::Required(params) };
+    let tlscfg = if plain {
+        Tls::None
+    } else if wrapper {
+        Tls::Wrapper(params)
+    } else {
+        Tls::Required(params)
+    };
     let (listener, port) = listen()?;
     let done = Arc::new(AtomicBool::new(false));
     let server = {
@@ -412,7 +424,7 @@ pub fn tstall(args: &[&str]) -> Option<Vec<String>> {
                         let (ident, done) = (ident.clone(), done.clone());
                         let stall = if k == 0 { Some(at) } else { None };
                         k += 1;
-                        handlers.push(std::thread::spawn(move || serve_tstall_conn(s, wrapper, stall, ident, done)));
+                        handlers.push(std::thread::spawn(move || serve_tstall_conn(s, wrapper, plain, stall, ident, done)));
                     }
                     Err(_) => std::thread::sleep(Duration::from_millis(2)),
                 }
@@ -440,7 +452,9 @@ pub fn tstall(args: &[&str]) -> Option<Vec<String>> {
             std::thread::spawn(move || {
                 use lettre::transport::smtp::client::SmtpConnection;
                 let long = Some(Duration::from_secs(5));
-                let conn = if wrapper {
+                let conn = if plain {
+                    SmtpConnection::connect((crate::util::lo(), port), long, &hello, None, None)
+                } else if wrapper {
                     SmtpConnection::connect((crate::util::lo(), port), long, &hello, Some(&params), None)
                 } else {
                     SmtpConnection::connect((crate::util::lo(), port), long, &hello, None, None).and_then(|mut c| c.starttls(&params, &hello).map(|_| c))
